@@ -6,6 +6,10 @@ from gosym import (Engine, Ptr, Slice, Iface, Big, ByteOf, Opaque, FuncVal, NILP
                    GoPanic, Unsupported, PathAbort, tobv, force, is_sym, concrete, simp)
 
 
+class MixedCells(Exception):
+    pass
+
+
 def install_common(eng):
     I = eng.intercepts
     eng.models_used = set()
@@ -159,6 +163,8 @@ def int_of_cells(e, cells):
         k += 1
     if 0 < k < m:
         return int_of_cells(e, cells[k:])
+    if getattr(e, 'forbid_mixed', False):
+        raise MixedCells('integer conversion of a buffer that is not one complete draw: %s' % ([type(c).__name__ for c in cells[:4]],))
     bv = z3.Concat(*[tobv(c, 8) for c in cells]) if m > 1 else tobv(cells[0], 8)
     v = z3.BV2Int(bv)
     return v, 0, 256 ** m - 1
